@@ -88,16 +88,30 @@
 	    local.get $r.d.d
 	    local.get $l.comp
 		call_indirect (type $$wa.runtime.comp)
-	  else ;;if comp == 0, compare as ref:
-	    local.get $l.d.d
-		local.get $r.d.d
+	  else ;;if comp == 0, compare as ref; values of different dynamic types differ even if both pointers are nil:
+	    local.get $l.itab
+		local.get $r.itab
 		i32.lt_u
 		if (result i32)
 		  i32.const -1
 		else
-		  local.get $l.d.d
-		  local.get $r.d.d
+		  local.get $l.itab
+		  local.get $r.itab
 		  i32.gt_u
+		  if (result i32)
+		    i32.const 1
+		  else
+		    local.get $l.d.d
+		    local.get $r.d.d
+		    i32.lt_u
+		    if (result i32)
+		      i32.const -1
+		    else
+		      local.get $l.d.d
+		      local.get $r.d.d
+		      i32.gt_u
+		    end
+		  end
 		end
 	  end
 	end
